@@ -86,6 +86,43 @@ type dboundsEngine struct {
 	realDec   map[string]*ssa.Function
 }
 
+// helperCallSites: fn is a private helper of the decoder — an unexported realDecoder method that is not
+// part of any interface of the package and is referenced only as the callee of plain calls; returns those
+// calls (nil if fn is not such a helper).  Preconditions of a helper are discharged at its call sites.
+func (e *dboundsEngine) helperCallSites(fn *ssa.Function) []*ssa.Call {
+	if fn == nil || e.realDec[fn.Name()] != fn || token.IsExported(fn.Name()) || !e.p.onlyStaticallyCalled(fn) {
+		return nil
+	}
+	sc := e.p.Sarama.Pkg.Scope()
+	for _, n := range sc.Names() {
+		tn, ok := sc.Lookup(n).(*types.TypeName)
+		if !ok {
+			continue
+		}
+		if it, ok := tn.Type().Underlying().(*types.Interface); ok {
+			for i := 0; i < it.NumMethods(); i++ {
+				if it.Method(i).Name() == fn.Name() {
+					return nil
+				}
+			}
+		}
+	}
+	var out []*ssa.Call
+	for _, f := range e.p.Fns {
+		for _, b := range f.Blocks {
+			for _, in := range b.Instrs {
+				if cl, ok := in.(*ssa.Call); ok && cl.Call.StaticCallee() == fn {
+					if e.realDec[f.Name()] != f {
+						return nil // called from outside the decoder: not a private helper
+					}
+					out = append(out, cl)
+				}
+			}
+		}
+	}
+	return out
+}
+
 func newDBounds(p *Program) *dboundsEngine {
 	e := &dboundsEngine{p: p, summaries: map[string]dfact{}, realDec: map[string]*ssa.Function{}}
 	e.sizes = p.Pkgs[0].TypesSizes
@@ -179,6 +216,35 @@ func (e *dboundsEngine) base(v ssa.Value) dfact {
 		if i, ok := dConstInt(x); ok {
 			return constFact(i)
 		}
+	case *ssa.Parameter:
+		// parameter of a private helper of the decoder: the join of the argument over all its call sites
+		sites := e.helperCallSites(x.Parent())
+		if sites == nil {
+			return dTop
+		}
+		idx := -1
+		for i, q := range x.Parent().Params {
+			if q == x {
+				idx = i
+			}
+		}
+		var out dfact
+		saved := e.useBlk
+		for i, cl := range sites {
+			if idx < 0 || idx >= len(cl.Call.Args) {
+				e.useBlk = saved
+				return dTop
+			}
+			e.useBlk = cl.Block()
+			f := e.evalAt(cl.Call.Args[idx], cl.Block())
+			if i == 0 {
+				out = f
+			} else {
+				out = out.join(f)
+			}
+		}
+		e.useBlk = saved
+		return out
 	case *ssa.ChangeType:
 		return e.evalAt(x.X, x.Block())
 	case *ssa.Convert:
